@@ -68,6 +68,18 @@ class Ctx:
         self.analysed_funcs[f"{f.module.rel}::{f.qualname}"] = f
         return f
 
+    def step(self, fn, *args, **kw):
+        """Run one part of a property's analysis.  A part that cannot interpret the code (vanished anchor, unknown shape)
+        is recorded and the remaining parts still run: what they decide is kept, and the run ends in ANALYSIS-ERROR only
+        if no part found a violation (see run_module)."""
+        from .index import AnalysisError
+
+        try:
+            return fn(self, *args, **kw)
+        except AnalysisError as e:
+            self.step_aborts.append(str(e))
+            return None
+
     def require(self, cond, msg: str):
         if not cond:
             raise AnalysisError(f"{self.prop}: {msg}")
@@ -176,8 +188,11 @@ def run_module(mod, ctx) -> None:
     from .index import AnalysisError
 
     ctx.aborted = None
+    ctx.step_aborts = []
     try:
         mod.run(ctx)
+        if ctx.step_aborts:
+            raise AnalysisError("; ".join(dict.fromkeys(ctx.step_aborts)))
         if not getattr(ctx, "sweeps_done", False):
             from checks.common import generic_sweeps
 
